@@ -1268,6 +1268,33 @@ def _alarm(signum, frame):
     raise CallTimeout()
 
 
+def _scribble(r, keep, depth=0):
+    """overwrite the mutable containers of a returned value in place (dicts, lists, arrays, networkx graphs)"""
+    if id(r) in keep or depth > 3:
+        return
+    try:
+        import networkx as nx
+        if isinstance(r, np.ndarray):
+            if r.flags.writeable and r.size:
+                r[...] = (-777 if r.dtype.kind in "iuf" else r.flat[0])
+        elif isinstance(r, dict):
+            for v in list(r.values()):
+                _scribble(v, keep, depth + 1)
+            r.clear()
+            r["<overwritten by the caller>"] = 1
+        elif isinstance(r, list):
+            for v in r:
+                _scribble(v, keep, depth + 1)
+            del r[:]
+        elif isinstance(r, tuple):
+            for v in r:
+                _scribble(v, keep, depth + 1)
+        elif isinstance(r, (nx.Graph, nx.DiGraph)):
+            r.clear()
+    except Exception:
+        pass
+
+
 def record(scn, seed=12345):
     """Runs one scenario and returns the trace material:
       fp[0..2]   {arg: fingerprint} before, after call 1, after call 2
@@ -1302,6 +1329,10 @@ def record(scn, seed=12345):
             rtrees.append(tree)
             res.append(fingerprint(tree))
             exc.append(None)
+            if call == 0:
+                # the caller owns what it is handed: it may overwrite the containers of the result; the repeated call
+                # must not be served from them (objects that ARE arguments of the call are left alone)
+                _scribble(r, {id(v) for v in kw.values()} | {id(x) for v in kw.values() if isinstance(v, (list, tuple, dict)) for x in (v.values() if isinstance(v, dict) else v)})
         except CallTimeout:
             out["timeout"] = "call #%d did not finish within %d s" % (call + 1, CALL_TIMEOUT)
             return out
